@@ -96,7 +96,13 @@ class Server:
                     got = c.recv(100)
                     c.close()
                     if got.startswith(b"+PONG"):
-                        return True
+                        # if the port was taken in the meantime our child failed to bind and is
+                        # exiting: the PONG then came from somebody else's server
+                        time.sleep(0.15)
+                        if self.p.poll() is None:
+                            return True
+                        last = "port %d was taken by another process" % self.port
+                        break
                     last = "unexpected greeting %r" % got
                     break      # something else answers on that port
                 except OSError as ex:
